@@ -12,7 +12,8 @@
                          present or absent, zero-sized shapes.  The rectangle model covers the solid stroke style
                          (the property is about solid strokes); circle and ellipse do not look at the stroke style. *)
 From EG Require Import Base.Prelude Model.Geometry Model.Style Model.Circle Model.Ellipse Model.Styledrect
-  Proofs.Geometry Proofs.Scanline Proofs.Circle Proofs.Ellipse Proofs.Circlestyled Proofs.Ellipsestyled Proofs.Styledrect.
+  Proofs.Geometry Proofs.Scanline Proofs.Circle Proofs.Ellipse Proofs.Circlestyled Proofs.Ellipsestyled Proofs.Styledrect Proofs.Pixnodup.
+From Coq Require Import Sorting.Sorted.
 
 (* ---- the split of the stroke width (Inside: all inside; Outside: all outside; Center: the larger half inside) ---- *)
 Theorem C06_stroke_split : forall st,
@@ -81,6 +82,15 @@ Theorem C06_circle_pixels_spec : forall c st p,
   styled_map (circle_contains (circle_fill_area c st)) (circle_contains (circle_stroke_area c st)) st p.
 Proof. exact circle_pixels_spec. Qed.
 
+(* pixels() yields its items in strictly row-major order (lt_yx), hence no point twice *)
+Theorem C06_circle_pixels_row_major : forall c st,
+  circle_sok c -> style_ok st -> StronglySorted lt_yx (map fst (circle_styled_pixels c st)).
+Proof. exact circle_pixels_sorted. Qed.
+
+Theorem C06_circle_pixels_no_duplicates : forall c st,
+  circle_sok c -> style_ok st -> NoDup (map fst (circle_styled_pixels c st)).
+Proof. exact circle_pixels_nodup. Qed.
+
 Theorem C06_circle_stroke_area_grow : forall c st,
   circle_sok c -> style_ok st -> 1 <= c_d c ->
   circle_stroke_area c st =
@@ -117,6 +127,14 @@ Theorem C06_ellipse_pixels_spec : forall e st p,
   last_write (ellipse_styled_pixels e st) p =
   styled_map (ellipse_contains (ellipse_fill_area e st)) (ellipse_contains (ellipse_stroke_area e st)) st p.
 Proof. exact ellipse_pixels_spec. Qed.
+
+Theorem C06_ellipse_pixels_row_major : forall e st,
+  ellipse_sok e -> style_ok st -> StronglySorted lt_yx (map fst (ellipse_styled_pixels e st)).
+Proof. exact ellipse_pixels_sorted. Qed.
+
+Theorem C06_ellipse_pixels_no_duplicates : forall e st,
+  ellipse_sok e -> style_ok st -> NoDup (map fst (ellipse_styled_pixels e st)).
+Proof. exact ellipse_pixels_nodup. Qed.
 
 Theorem C06_ellipse_stroke_area_grow : forall e st,
   ellipse_sok e -> style_ok st -> 1 <= sw (e_sz e) -> 1 <= sh (e_sz e) ->
